@@ -240,6 +240,48 @@ def configs(ctx):
     return out
 
 
+def infgrow_case(case):
+    """'finite and infinite target times': integrate to +-inf with a terminal time event far enough away that the storage has to grow several times while
+    the end is unknown, with non-terminal events placed in chosen steps before it (in particular the steps that fill the storage exactly)."""
+    de, I = lc._imports()
+    r = Res()
+    name = case["method"]
+    d = case["dir"]
+    dtype = np.float64
+    prob = ec.Osc(0.0)
+    T_stop = d * case["stop"]
+    evs = [ec.make_event(dict(kind="time", tau=d * (0.1 * k + 0.05), s=1.0, dir=0), prob) for k in case["steps"]]
+    evs.append(ec.make_event(dict(kind="time", tau=T_stop, s=1.0, dir=0, terminal=True), prob))
+    evs.append(ec.make_event(dict(kind="time", tau=T_stop + d * 0.8, s=1.0, dir=0, terminal=True), prob))       # a later terminal event that must not be reported
+    a = de.OdeSystem(prob.f, y0=np.array(prob.y0, dtype=dtype), t=(dtype(0.0), dtype(d * 1.0)), dt=dtype(0.1), rtol=dtype(1e-8), atol=dtype(1e-8), dense_output=bool(case["dense"]), constants=dict(ec.CONSTS))
+    a.method = lc.by_name(name)
+    r.n = 1
+    try:
+        with ec.in_library():
+            a.integrate(dtype(d * np.inf), events=evs, callback=driver.Budget(20000))
+    except de.exception_types.FailedIntegration as e:
+        r.v("C09/infinite-target-raises/%s" % name, "integration to an infinite target stops at the terminal event", case, observed=repr(e.__cause__)[:200], expected="stops at the event")
+        return r
+    T = np.asarray(a.t); Y = np.asarray(a.y, dtype=LD)
+    ok = driver.segment_invariants(r, "C09/infinite", case, a.t, a.y, 0, len(a) - 1, dtype(T_stop), dtype(0.0), np.array(prob.y0, dtype=dtype), dtype)
+    for v in r.viol:
+        if v["key"].count("/") == 2:
+            v["key"] = v["key"] + "/" + name
+    if ok:
+        err = max(float(np.max(np.abs(Y[k] - prob.y(T[k])))) for k in range(len(T)))
+        if err > 2e-3:
+            k = int(np.argmax([float(np.max(np.abs(Y[k] - prob.y(T[k])))) for k in range(len(T))]))
+            r.v("C09/infinite-trajectory/%s" % name, "the trajectory up to the event remains valid", dict(case, row=k), observed=dict(t=float(T[k]), err=err), expected="on the exact solution")
+        got = sorted(float(st.t) * d for st in a.events)
+        want = sorted([0.1 * k + 0.05 for k in case["steps"]] + [case["stop"]])
+        if len(got) != len(want) or max(abs(x - y) for x, y in zip(got, want)) > 1e-7:
+            r.v("C09/infinite-events/%s" % name, "only the earliest terminal event and the non-terminal events before it are reported", case, observed=got[:8], expected=want[:8])
+        if a.integration_status != "Integration terminated upon finding a triggered event." or not a.success:
+            r.v("C09/status/%s" % name, "the status reports termination by event as a success", case, observed=a.integration_status, expected="terminated by event")
+    r.out(("infgrow", name, d, case["dense"], len(case["steps"])))
+    return r
+
+
 def run(ctx):
     ctx.rule = ("E1 breadth-first search to depth 3 over {integrate(events), integrate(+-inf, events), integrate(30%)} then {integrate(), integrate(other terminal event), reset} "
                 "from every configuration: 2 problems x 7 signed spans x 17 event menus (terminal / non-terminal mixes in every order of their roots, two terminals, same root, "
@@ -247,9 +289,23 @@ def run(ctx):
                 "distinct = distinct (method, problem, direction, dense, op-name history, status) classes")
     ctx.assumptions += ["'earliest terminal event' is identified against the exact roots on the lattice problem (exact) and for the accurate methods on the oscillator (within 25x the location bound)",
                         "continuation uses integrate() or a different terminal event: re-arming the same terminal event at its own root is not covered by the statement"]
-    explore.bfs(ctx, configs(ctx), ops_fn, step, 3, section="bfs", horizon=300)
+    if not ctx.only or "bfs" in ctx.only:
+        explore.bfs(ctx, configs(ctx), ops_fn, step, 3, section="bfs", horizon=300)
+    if not ctx.only or "infgrow" in ctx.only:
+        from mc.core import grid
+        icases = []
+        for m in ("RK4Solver", "RK5Solver", "ABAs5o6HSolver") + (() if ctx.quick else ("RK45CKSolver", "MidpointSolver")):
+            for d in (1.0, -1.0):
+                for dense in (False, True):
+                    for k0 in list(range(8, 24)) + list(range(39, 46)):
+                        icases.append(dict(infgrow=True, method=m, dir=d, dense=dense, stop=4.85, steps=[k0]))
+                        if k0 % 2 == 0:
+                            icases.append(dict(infgrow=True, method=m, dir=d, dense=dense, stop=4.85, steps=[k0, k0 + 1]))
+        grid.pmap(infgrow_case, icases, ctx, section="infgrow", horizon=300)
 
 
 def replay(case):
+    if case.get("infgrow"):
+        return infgrow_case({k: v for k, v in case.items() if k != "row"})
     cfg = {k: v for k, v in case.items() if k not in ("hist", "event_index", "step", "frac", "row")}
     return step(cfg, tuple(tuple(o) for o in case["hist"]))
